@@ -26,6 +26,11 @@ EXPLANATION = ("V1 positional decode (path-sensitive abstract evaluation with a 
                "bin_attrs[type], nothing in attrs.  Between decision and placement S is only observed, permuted or handed on whole, and no "
                "search runs on a named iterator (it would be left advanced).  Not decided: 'no value lost or "
                "altered' as a statement about contents; duplicate attribute types in one entry (a second insert replaces the first).")
+# C15's quantifier - "for all entries: any number of attributes, any number of values per attribute" - presupposes that every well-formed
+# entry reaches `construct` at all: the TLV parser keeps every child of a constructed element, ends the children loop only when the
+# content is used up, refuses nothing but a failed primitive or nesting beyond the bound, and what it compares with that bound is the
+# nesting depth (not the number of attributes / values met so far).  Decided by C07's B7 family on the parser's paths.
+SHARED = [('C07', ('B7.',), 'V3.every-well-formed-entry-is-parsed')]
 TRUSTED = ['std iterator adapters (map, filter_map, collect) preserve order', 'HashMap entry API',
            'Iterator::{any, all, position, find} apply their predicate to the elements in order until the answer is certain; slice sort* / reverse permute']
 UNDECIDED = ['content equality of values', 'duplicate attribute types within one entry']
